@@ -874,3 +874,11 @@ CASES.append({'name': 'ben47r1-angle-helper-loses-its-clamp', 'props': ['C10', '
 CASES.append({'name': 'ben47r2-validated-cone-keeps-the-given-centre', 'props': ['C12'], 'expect': ['C12.centre'], 'patch': '/verif/selftest/benign/ben47-r2.diff',
               'edits': [('oxmpl/src/base/spaces/so3_state_space.rs', '        Ok((unit_center, max_angle.min(PI)))', '        let _ = unit_center;\n        Ok((center_rotation, max_angle.min(PI)))')]})
 benign_patch('ric18-helper-strict-skip', ALL)                 # the refactoring half of seed RIC18 with the comparison kept strict: one `connectable_milestones` helper, skip on `distance >= radius`
+
+# benign round 48 (PRM and the RRT-Connect join: the area of the C18 / C02 rules of rounds 17-18); r2 and r4 are in unsupported/
+for _k in (1, 3, 5):
+    benign_patch('ben48-r%d' % _k, ALL)                         # connectable_milestones as a filter/map/collect chain shared by construction and query; require_setup + motion_step_count + all(); enumerate loops with named-bool skip guards, Node accessors, insert_milestone
+CASES.append({'name': 'ben48r5-named-radius-test-not-strict', 'props': ['C18'], 'expect': ['C18.guards'], 'patch': '/verif/selftest/benign/ben48-r5.diff',
+              'edits': [('oxmpl/src/geometric/planners/prm.rs', '                    pd.space.distance(&q_rand, &milestone.state) < self.connection_radius;', '                    pd.space.distance(&q_rand, &milestone.state) <= self.connection_radius;')]})
+CASES.append({'name': 'ben48r1-shared-helper-not-strict', 'props': ['C18'], 'expect': ['C18.guards'], 'patch': '/verif/selftest/benign/ben48-r1.diff',
+              'edits': [('oxmpl/src/geometric/planners/prm.rs', '< self.connection_radius', '<= self.connection_radius')]})
